@@ -56,8 +56,8 @@ SPEC = dict(
           "random histories of 2-5 desired profiles (1-6 entries over nested paths a|b|c|d up to depth 4 under a scratch "
           "root, sometimes written uncleanly; kinds dir/file/symlink/ensure-dir; bind/rbind/tmpfs/squashfs; origins "
           "layout/overname/rootfs/other/none; x-snapd.id, ignore-missing, detach) over a random pre-existing tree of "
-          "directories, files and symlinks, each step run through the REAL executeMountProfileUpdate with in-memory "
-          "profiles and a simulated Change.Perform (missing targets get a writable mimic built by the real "
+          "directories, files and symlinks, each step run through the REAL executeMountProfileUpdate with "
+          "profiles saved and reloaded as text between updates and a simulated Change.Perform (missing targets get a writable mimic built by the real "
           "createWritableMimic, so current profiles contain real synthetic entries with x-snapd.needed-by); one case per "
           "step. Scripted and random histories of nested entries of different origins whose outer one changes, followed by another entry of the outer one's origin. Mutations also put a tmpfs on the directory above an existing entry (where a mimic may sit). A third of the cases call neededChanges directly on an arbitrary current profile (duplicates, synthetic "
           "helpers needed by present/absent entries, rootfs entries, up to 18 entries). Desired mount points are pairwise "
